@@ -2,6 +2,7 @@ package lossy
 
 import (
 	"encoding/binary"
+	"fmt"
 	"sync"
 
 	"github.com/deepteams/webp/internal/bitio"
@@ -40,6 +41,17 @@ func (enc *VP8Encoder) emitFrame() ([]byte, error) {
 	enc.stats.Residuals = tokenSize
 
 	// Frame tag (3 bytes) + picture header (7 bytes for keyframe).
+	// The frame tag stores the first partition's length in 19 bits and every
+	// token partition but the last in 24 bits; a longer partition cannot be
+	// represented (libwebp: VP8_ENC_ERROR_PARTITION0_OVERFLOW / PARTITION_OVERFLOW).
+	if len(part0) > maxPartition0Size {
+		return nil, fmt.Errorf("lossy: first partition too large (%d bytes, max %d)", len(part0), maxPartition0Size)
+	}
+	for i := 0; i+1 < len(tokenParts); i++ {
+		if len(tokenParts[i]) > maxTokenPartitionSize {
+			return nil, fmt.Errorf("lossy: token partition %d too large (%d bytes, max %d)", i, len(tokenParts[i]), maxTokenPartitionSize)
+		}
+	}
 	return enc.assembleFrame(part0, tokenParts), nil
 }
 
@@ -112,6 +124,11 @@ func (enc *VP8Encoder) emitTokenPartitions() [][]byte {
 	}
 	return parts
 }
+
+const (
+	maxPartition0Size     = 1<<19 - 1 // 19-bit length field of the frame tag
+	maxTokenPartitionSize = 1<<24 - 1 // 24-bit entries of the partition size table
+)
 
 // assembleFrame constructs the complete VP8 frame from partition 0 and
 // token partitions.
